@@ -66,8 +66,8 @@ Proof. exact c_lax_max_digits_carry. Qed.
 (* ---------------- re-parsing a result (whole types) ----------------
    Spec/Stable.v: `stable t` — builtin classes, data classes, unions (| and ^) of builtin classes and data
    classes, negations, constrained scalars and Optional-style rules over a stable origin, homogeneous
-   sequences (list / set / frozenset / variable-length tuple) of stable element types, mappings
-   Dict[K, V] of stable key and value types, all with checking (non-lax) constraints; `throwing o` — the default 'throw' policies; `ints_exact t w` — no bool stands
+   sequences (list / set / frozenset / variable-length tuple) of stable element types, fixed-length
+   tuples Tuple[T1, ..., Tn] and mappings Dict[K, V] of stable types, all with checking (non-lax) constraints; `throwing o` — the default 'throw' policies; `ints_exact t w` — no bool stands
    where an int is declared (int([True]) returns True: the one result of a converter that is not of the
    exact declared class; it re-parses to the equal value 1, see C03_bool_for_int_reparses_equal).
    Everything else the proof needs about w (exact classes of elements, of union results, of rebuilt
@@ -127,4 +127,14 @@ Example C03_reparse_mapping_nonvacuous :
      (PDict [(PStr "1", PStr "a"); (PInt 2, PInt 3); (PInt 1, PStr "b")]) = Ok w /\
   ints_exact dict_int_str w = true /\
   type_transform (fun _ _ => false) (fun _ => None) 5 default_options dict_int_str w = Ok w.
+Proof. repeat split; vm_compute; reflexivity. Qed.
+
+(* a fixed-length tuple: every position converted by its own type, the result returned unchanged by a second parse *)
+Definition tuple_int_str : ty := TRule (Some (TPrim TTuple)) [TPrim TInt; TPrim TStr] false [] None None None.
+Example C03_reparse_tuple_nonvacuous :
+  let w := PTuple [PInt 1; PStr "2"] in
+  stable tuple_int_str = true /\
+  type_transform (fun _ _ => false) (fun _ => None) 5 default_options tuple_int_str (PList [PStr "1"; PInt 2]) = Ok w /\
+  ints_exact tuple_int_str w = true /\
+  type_transform (fun _ _ => false) (fun _ => None) 5 default_options tuple_int_str w = Ok w.
 Proof. repeat split; vm_compute; reflexivity. Qed.
